@@ -165,20 +165,42 @@ def nontrivial(prog):
 def scripted_cases():
     out = []
 
-    def check(name, build, bad):
+    def check(name, build, bad, temporaries=False):
+        # temporaries: the failing statement first builds a temporary tensor from an input (`a[0]`, `a - 1.0`); while the
+        # exception is referenced its traceback keeps that temporary, hence its creator, hence the input's lock, alive —
+        # a lock held on behalf of a *successful* operation, so the flags are then compared only after the handler
         gc.collect()
         ts = build()
-        snap = [(t.data.copy(), t.constant, t.base, t.creator, id(t)) for t in ts]
+        # every non-constant input first receives a gradient from an earlier, finished graph epoch
+        for t in ts:
+            if t.constant is False and t.base is None:
+                (t * 3.0).sum().backward()
+        gc.collect()
+        snap = [(t.data.copy(), t.constant, t.base, t.creator, id(t), None if t.grad is None else np.array(t.grad)) for t in ts]
         flags = [t.data.flags.writeable for t in ts]
+        inplace = name.split("-")[0] in ("setitem", "iadd", "out", "view", "idiv", "custom") or "inplace" in name
         try:
             bad(*ts)
             out.append((name, "did-not-raise", "the statement was expected to raise"))
             return
-        except Exception:
-            pass
+        except Exception as e:  # noqa: F841  (the exception is deliberately kept referenced while the flags are read)
+            held = [t.data.flags.writeable for t in ts]
+        now = [t.data.flags.writeable for t in ts]
+        for t, f, fh, fn in zip(ts, flags, held, now):
+            if t.data.base is None and ((fh != f and not temporaries) or fn != f):
+                out.append((name, "lock-left", f"{name}: the writeable flag of an input is {f} before the failing statement, {fh} in its "
+                            f"exception handler and {fn} after it"))
+                return
         for t, s in zip(ts, snap):
             if not np.array_equal(t.data, s[0], equal_nan=True) or t.constant != s[1] or t.base is not s[2] or t.creator is not s[3]:
                 out.append((name, "trace-left", f"{name}: an input tensor changed (value/flag/base/creator)"))
+                return
+            g = t.grad
+            if not inplace and not temporaries and ((g is None) != (s[5] is None) or (g is not None and not np.array_equal(g, s[5]))):
+                # (a failing *in-place* update voids the gradients of its target's family beforehand: the recorded
+                # finding failed-inplace-discards-stale-links; every other failing statement must leave them)
+                out.append((name, "trace-left", f"{name}: the gradient an input held from an earlier backward changed: "
+                            f"{None if s[5] is None else s[5].tolist()} -> {None if g is None else g.tolist()}"))
                 return
         # a later correct use still works and gives right gradients
         y = ts[0] * 2.0
@@ -205,9 +227,38 @@ def scripted_cases():
     check("iadd-shape", lambda: (T(2, 3), T(4)), lambda a, b: a.__iadd__(b))
     check("out-shape", lambda: (T(2, 3), T(4)), lambda a, b: np.add(a, a, out=b))
     check("out-dtype", lambda: (T(2, 3),), lambda a: np.add(a, a, out=a, dtype=np.int32))
-    check("view-setitem-shape", lambda: (T(2, 3), T(4)), lambda a, b: a[0].__setitem__(Ellipsis, b))
+    check("view-setitem-shape", lambda: (T(2, 3), T(4)), lambda a, b: a[0].__setitem__(Ellipsis, b), temporaries=True)
     check("conv-shape", lambda: (T(1, 1, 5), T(1, 2, 3)), lambda a, b: __import__("mygrad.nnet.layers", fromlist=["conv_nd"]).conv_nd(a, b, stride=1))
-    check("int-nonconstant", lambda: (T(2, 3),), lambda a: mg.add(a.astype(int), 1, constant=False))
+    check("int-nonconstant", lambda: (T(2, 3),), lambda a: mg.add(a.astype(int), 1, constant=False), temporaries=True)
+    Ti = lambda *s: mg.tensor(np.arange(int(np.prod(s))).reshape(s) + 1)
+    # failures raised *after* the forward pass succeeded: the output cannot be made a tensor
+    check("int-nonconstant-named", lambda: (Ti(2, 3), Ti(3)), lambda a, b: mg.add(a, b, constant=False))
+    check("dtype-complex", lambda: (T(2, 3),), lambda a: mg.sqrt(a, dtype="complex64"))
+    check("dtype-complex-binary", lambda: (T(2, 3), T(3)), lambda a, b: mg.multiply(a, b, dtype=complex))
+    check("int-view-nonconstant", lambda: (Ti(2, 3),), lambda a: mg.transpose(a, constant=False))
+
+    # failures of a kind other than shape/index/cast errors: floating-point traps and exceptions of user-defined operations
+    def fp(f):
+        def g(*ts):
+            with np.errstate(all="raise"):
+                return f(*ts)
+        return g
+
+    Z = lambda *s: mg.tensor(np.zeros(s))
+    check("fp-divide", lambda: (T(2, 3), Z(3)), fp(lambda a, z: a / z))
+    check("fp-log", lambda: (T(2, 3),), fp(lambda a: mg.log(a - 1.0)), temporaries=True)
+    check("idiv-fp", lambda: (T(2, 3), Z(3)), fp(lambda a, z: a.__itruediv__(z)))
+    check("out-fp-log-view", lambda: (T(2, 3),), fp(lambda a: np.log(a[0] - 1.0, out=a[0])), temporaries=True)
+
+    class _Boom(mg.operation_base.Operation):
+        def __call__(self, a, out=None):
+            raise KeyError("an exception class of the operation's own")
+
+        def backward_var(self, grad, index, **kwargs):  # pragma: no cover
+            return grad
+
+    check("custom-op-raises", lambda: (T(2, 3),), lambda a: mg.Tensor._op(_Boom, a))
+    check("custom-op-raises-inplace", lambda: (T(2, 3),), lambda a: mg.Tensor._op(_Boom, a, out=a))
     check("where-shape", lambda: (T(2, 3), T(4)), lambda a, b: mg.where(np.ones((2, 3), bool), a, b))
     check("stack-shape", lambda: (T(2, 3), T(4)), lambda a, b: mg.stack([a, b]))
     # failures on natively read-only memory (NumPy refuses the write): the failing statement comes *after* ops that
@@ -225,6 +276,42 @@ def scripted_cases():
         (sx.sum() + sv.sum() + sw.sum()).backward()
         return [None if t.grad is None else np.array(t.grad) for t in (x, v, w)], [np.array(t.data) for t in (x, v, w)], \
                (v.base is x, w.base is x, x.base is None, x.constant, v.constant, w.constant)
+
+    def w_build():
+        arr = np.arange(1.0, 7.0)
+        x = mg.Tensor(arr, copy=False)
+        v = x[1:5]
+        w = v[::2]
+        return arr, x, v, w, x * x, v * v * 3.0, w * w * 5.0
+
+    def _raising(f):
+        def g(*st):
+            with np.errstate(all="raise"):
+                return f(*st)
+        return g
+
+    refw = ro_finish(w_build())
+    for name, bad in [("fp-base-idiv", _raising(lambda arr, x, v, w, *_: x.__itruediv__(mg.tensor(np.zeros(6))))),
+                      ("fp-view-idiv", _raising(lambda arr, x, v, w, *_: v.__itruediv__(0.0))),
+                      ("fp-viewofview-out-log", _raising(lambda arr, x, v, w, *_: np.log(w - 10.0, out=w))),
+                      ("fp-base-out-sqrt", _raising(lambda arr, x, v, w, *_: np.sqrt(x - 10.0, out=x)))]:
+        gc.collect()
+        st = w_build()
+        try:
+            bad(*st)
+            out.append((name, "did-not-raise", f"{name}: a floating-point trap was expected"))
+            continue
+        except Exception:
+            pass
+        got = ro_finish(st)
+        same = (all((a is None) == (b is None) and (a is None or np.array_equal(a, b)) for a, b in zip(got[0], refw[0]))
+                and all(np.array_equal(a, b) for a, b in zip(got[1], refw[1])) and got[2] == refw[2])
+        if not same:
+            out.append((name, "graph-corrupted", f"{name}: after the failed in-place update the earlier graph back-propagates differently: "
+                        f"grads {[None if g is None else g.tolist() for g in got[0]]} vs {[None if g is None else g.tolist() for g in refw[0]]}; "
+                        f"values {[a.tolist() for a in got[1]]}; links {got[2]} vs {refw[2]}"))
+        del st, got
+        gc.collect()
 
     ref = ro_finish(ro_build())
     for name, bad in [("readonly-view-setitem", lambda arr, x, v, w, *_: v.__setitem__(Ellipsis, 0.0)),
@@ -251,7 +338,7 @@ def scripted_cases():
     return out
 
 
-N_SCRIPTED = 22
+N_SCRIPTED = 38
 
 
 def run(ctx: Ctx) -> Outcome:
@@ -259,8 +346,10 @@ def run(ctx: Ctx) -> Outcome:
     out, results = engcheck.run_programs(ctx, n, dict(GEN, n_stmts=ctx.n(10, 18)), "oracle", nontrivial)
     out.rule = ("random programs with failing statements (non-view op with incompatible shapes, view op with bad index / "
                 "bad reshape, in-place update with bad shape or index on a base or on a view, bad out=) inserted at random "
-                "positions (22% of statements); non-trivial = >=1 failing statement actually raised; plus 22 scripted failure "
-                "kinds on matmul/einsum/concatenate/conv/out=dtype, and writes to natively read-only memory after the view family was consumed")
+                "positions (22% of statements); non-trivial = >=1 failing statement actually raised; plus 38 scripted failure "
+                "kinds on matmul/einsum/concatenate/conv/out=dtype, failures after the forward pass (unsupported result dtype, integer result with constant=False), "
+                "floating-point traps and exceptions of user-defined operations, in-place or not, each on inputs that hold gradients of an earlier epoch, with the "
+                "writeable flags read inside the exception handler and after it; and failing writes (read-only memory, floating-point traps) after the view family was consumed")
     nt = 0
     for r in results:
         if any(x != "ok" and x != "GUARD" and not x.startswith("v") for x in r["real"][1::2]):
